@@ -202,3 +202,11 @@ recv_packet = Spec(
             # empty payload (padding only): escapes to _recv_data, which turns it into internal_error()
             'PacketDecodeError': lambda c: z3.BoolVal(len(c.events('process_packet')) == 0)},
     returns='bool')
+
+
+# handler-side role / phase checks (service request/accept, ext info, kexinit strict-kex rule, newkeys, userauth
+# success/failure/banner) live in a separate module written against the same phase table
+try:
+    from .c06_handlers import *      # noqa: F401,F403
+except ImportError:                  # pragma: no cover
+    pass
